@@ -369,6 +369,48 @@ def run(ctx):
                            'as a separate node or as the next argument' % (tk, ' & '.join(bad.cond_src())[-150:] if bad else ''),
                            construct='chars marker: specials')
 
+    # ---- R02w: one character class for macro names
+    ctx.rule('R02w', 'impl_read_macro: the loop that extends a macro name accepts a further character under the same test as '
+                     'the first letter -- membership in parsing_state.macro_alpha_chars -- and bounds tests only: a wider class '
+                     '(str.isalpha) makes the name swallow following text (`\\alphaβ`), so names, text and arguments differ from '
+                     'the written structure', 1)
+    trm_ = repo.mod('pylatexenc.latexnodes._tokenreader')
+    irm = trm_.functions.get('LatexTokenReader.impl_read_macro')
+    if irm is None:
+        raise AnalysisError('anchor vanished: LatexTokenReader.impl_read_macro')
+    first_cls = {unparse(c_.comparators[0]) for c_ in iter_own(irm) if isinstance(c_, ast.Compare) and len(c_.ops) == 1
+                 and isinstance(c_.ops[0], ast.In) and 'alpha' in unparse(c_.comparators[0])
+                 and not any(isinstance(p_, ast.While) and any(c_ is y_ for y_ in ast.walk(p_.test)) for p_ in parents(c_))}
+    nloops = 0
+    for lp_ in [l_ for l_ in iter_own(irm) if isinstance(l_, ast.While)]:
+        if not any(isinstance(a_, ast.AugAssign) and isinstance(a_.op, ast.Add) and isinstance(a_.value, ast.Subscript)
+                   for a_ in ast.walk(lp_)):
+            continue
+        nloops += 1
+        leaves = list(_bool_leaves2(lp_.test))
+        odd = []
+        for lf in leaves:
+            if isinstance(lf, ast.Compare) and len(lf.ops) == 1 and isinstance(lf.ops[0], (ast.Lt, ast.LtE, ast.Gt, ast.GtE)) \
+                    and 'len(' in unparse(lf):
+                continue
+            if isinstance(lf, ast.Compare) and len(lf.ops) == 1 and isinstance(lf.ops[0], ast.In) and \
+                    unparse(lf.comparators[0]) in first_cls:
+                continue
+            odd.append(short(lf, 50))
+        ctx.decide('R02w', not odd and len(first_cls) == 1, trm_, lp_,
+                   'name characters tested against %s only' % sorted(first_cls),
+                   'the loop that extends the macro name also continues on %s, while the first letter is tested against %s only: '
+                   'characters outside the configured macro alphabet are swallowed into the name' % (odd, sorted(first_cls)),
+                   construct='impl_read_macro: name character class')
+    if not nloops:
+        ctx.unknown('R02w', trm_, irm, 'loop extending the macro name not found', construct='impl_read_macro: name character class')
+
+    # ---- R02x (C14 M2e): where a category registered before / after another one goes
+    ctx.rule('R02x', 'a category added with insert_before / insert_after lands on the stated side of the named category: the '
+                     'specification found for a macro is the one of the category with priority (C14 M2e)', 4)
+    from . import c14 as _c14
+    _core.run_proxied(ctx, _c14, 'R02x', ('M2e',))
+
     # ---- R02v: one notion of white space
     ctx.rule('R02v', 'code of the parser layer that looks at a raw source character to decide "is this white space" uses '
                      'str.isspace(), like the token reader: a comparison with a literal of blanks that lacks the newline makes a '
@@ -1084,3 +1126,12 @@ def _is_source_char(e):
     """`<x>.s[i]` / `s[i]` -- one character of the source string"""
     return isinstance(e, ast.Subscript) and not isinstance(e.slice, ast.Slice) and (
         (isinstance(e.value, ast.Attribute) and e.value.attr == 's') or (isinstance(e.value, ast.Name) and e.value.id == 's'))
+
+
+def _bool_leaves2(e):
+    if isinstance(e, ast.BoolOp):
+        for v in e.values:
+            for x in _bool_leaves2(v):
+                yield x
+    else:
+        yield e
